@@ -1892,6 +1892,26 @@ func ruleAgedOutWritesChildrenFirst(r *Run, rule string) {
 		pos = fn.Decl.Pos()
 	}
 	r.Check(rule, "agedOut:closed-plan-written-children-first", pos, msg == "", "%s", orOK(msg, "the plan is written after everything it contains"))
+	// and nothing the walk yields is left out of the close-out (the rule of C04-R1 for End's writer, round-4 seed C04-7):
+	// runningToFailed can change any object, a Running one left unwritten stays Running under a plan nobody looks at again
+	if w := r.P.Funcs[writer]; w != nil && w.Decl.Body != nil {
+		if wfl, wpaths, ok := r.flowPaths(rule, w); ok {
+			walksPlan := false
+			ast.Inspect(w.Decl.Body, func(n ast.Node) bool {
+				if rs, ok := n.(*ast.RangeStmt); ok {
+					if c, ok := ast.Unparen(rs.X).(*ast.CallExpr); ok {
+						if f, ok := calleeFunc(w.Pkg.TypesInfo, c); ok && FuncKey(f) == "workflow/utils/walk.Plan" {
+							walksPlan = true
+						}
+					}
+				}
+				return true
+			})
+			if walksPlan {
+				ruleWalkLoopHandsOn(r, rule, "agedOut", writer, w, wfl, wpaths)
+			}
+		}
+	}
 }
 
 // writerOrderProblem: does the function that writes a whole plan write an object before what it contains?
